@@ -1589,8 +1589,12 @@ fn write_thunks<'data, A: Arch<Platform = Elf>>(
             })?;
 
         // For ifunc symbols, the raw_value is the resolver address, but the thunk must
-        // branch to the PLT stub that loads the resolved function pointer from the GOT.
-        let target_address = if res.flags.is_ifunc() {
+        // branch to the PLT stub that loads the resolved function pointer from the GOT. The same
+        // goes for interposable symbols that have a PLT entry: the branch that we're replacing
+        // would have gone to the PLT entry, so the thunk must too.
+        let target_address = if res.flags.is_ifunc()
+            || (res.flags.needs_plt() && res.flags.is_interposable())
+        {
             res.plt_address().with_context(|| {
                 format!(
                     "Ifunc symbol {} has no PLT entry for thunk",
